@@ -215,10 +215,19 @@ func c20Random(c *fw.Ctx, idx int) {
 		}
 		c.Count("sequences_of_250_to_3000_points")
 	}
+	if r.Chance(1, 1500) {
+		// tens of thousands of points (an interval of more than 8192 or 16384 points
+		// is where a scan might be split up), mostly straight with the odd spike
+		n = []int{8192, 8193, 8194, 8195, 10001, 16385, 16386, 16387, 20000, 32770}[r.Intn(10)] + r.Intn(4)
+		c.Count("sequences_of_8192_to_32773_points")
+	}
 	stride := r.Range(2, 5)
 	pts := make([][2]float64, 0, n)
 	classes := []string{"random-walk", "closed-loop", "repeats", "collinear-runs", "zigzag", "spike-near-end", "uniform"}
 	k := r.Intn(len(classes))
+	if n >= 8192 {
+		k = []int{5, 5, 3, 0}[r.Intn(4)] // a straight track with one spike, collinear runs, a walk
+	}
 	rp := func() [2]float64 { return [2]float64{float64(r.Intn(g + 1)), float64(r.Intn(g + 1))} }
 	switch k {
 	case 0:
@@ -267,7 +276,7 @@ func c20Random(c *fw.Ctx, idx int) {
 			pts = append(pts, [2]float64{float64(i), 0})
 		}
 		if n >= 3 {
-			pos := []int{1, n - 2, 2 % n, n / 2}[r.Intn(4)]
+			pos := []int{1, n - 2, 2 % n, n / 2, n - 2, (n - 3 + n) % n, (n - 4 + n) % n}[r.Intn(7)]
 			pts[pos][1] = float64(r.Range(1, g))
 		}
 	default:
